@@ -521,6 +521,8 @@ static PyObject *lib_getattr(LibObject *lib, PyObject *name)
 
  missing:
     /*** ATTRIBUTEERROR IS SET HERE ***/
+    if (!PyErr_ExceptionMatches(PyExc_AttributeError))
+        return NULL;     /* e.g. UnicodeEncodeError: name with lone surrogates */
     p = PyUnicode_AsUTF8(name);
     if (p == NULL)
         return NULL;
